@@ -1,5 +1,6 @@
 //! `verif` — model-checking harness for paritytech/litep2p. See /verif/DESIGN.md.
 
+mod env;
 mod mc;
 mod props;
 mod report;
